@@ -38,6 +38,7 @@ func checkC12(c *Ctx) {
 	r.Rule("R1.closure", "every RX1 DR cell is a defined downlink data-rate of that configuration")
 	r.Rule("R2.shape", "over the region's positive offsets a row never increases and moves down by at most one defined downlink DR per offset")
 	r.Rule("R3.formula", "cell = max(DR-offset,0) (formula bands) or = transcribed row (US915/AU915)")
+	r.Rule("R10.rx1-total", "GetRX1DataRateIndex evaluated at every point of uplink DR -2..17 x offset -2..9 of every configuration: never indexes out of range (an error, not a panic, outside what the region defines) and returns only defined downlink data rates")
 	r.Rule("R4.as923", "AS923 computed RX1 DR = min(5,max(floor,DR-eff[offset])) on the guard-established domain; both arguments bounded on both sides")
 	r.Rule("R5.rx1chan", "RX1 channel index accessor = identity or index mod N (N = number of downlink channels) for every uplink channel index; in the same-frequency regions the frequency accessor is the identity on every default channel")
 	r.Rule("R6.ping", "fixed ping-slot regions: the accessor evaluates to the regional constant (hopping regions: R6.ping-e1)")
@@ -85,6 +86,7 @@ func checkC12(c *Ctx) {
 			r.Unknown("R1.closure", id+"/rx1", P.Rel(cfg.CtorDecl.Pos()), "rx1 table literal", err.Error())
 			continue
 		}
+		c12RX1Total(c, bands, cfg, down)
 		owner := cfg.MethodOwner["GetRX1DataRateIndex"]
 		if owner == "band" {
 			// table-driven
@@ -348,6 +350,52 @@ func c12AS923(c *Ctx, bands *tables.Bands, cfg *tables.BandConfig, fam regBand, 
 			r.Check(okg && errNil && int(got.V) == want && down[want], "R4.as923", key, pos, fmt.Sprintf("DR%d = min(%d,max(%d,%d-(%d))), nil", want, fam.RX1DR.Cap, floor, dr, fam.RX1DR.EffOffsets[off]), fmt.Sprintf("%s, %s", tables.Show(res[0]), tables.Show(res[1])), true)
 		}
 	}
+}
+
+// c12RX1Total (R10): GetRX1DataRateIndex evaluated (E2, on the configuration's tables) at every point of uplink DR
+// -2..17 x offset -2..9: the evaluation never indexes a table out of range (an error, not a panic, for what the region
+// does not define), and every result returned with a nil error is a defined downlink data rate. Which data rate a
+// defined cell holds is R1/R3/R4.
+func c12RX1Total(c *Ctx, bands *tables.Bands, cfg *tables.BandConfig, down map[int]bool) {
+	r := c.Run
+	const rule = "R10.rx1-total"
+	fd := cfg.Methods["GetRX1DataRateIndex"]
+	id := cfg.Short()
+	if fd == nil {
+		r.Unknown(rule, id+"/GetRX1DataRateIndex", "", "method present", "missing")
+		return
+	}
+	names := paramNames(fd)
+	if len(names) != 2 {
+		r.Unknown(rule, id+"/GetRX1DataRateIndex", c.Prog.Rel(fd.Pos()), "two parameters", fmt.Sprint(names))
+		return
+	}
+	pos := c.Prog.Rel(fd.Pos())
+	n := 0
+	for dr := -2; dr <= 17; dr++ {
+		for off := -2; off <= 9; off++ {
+			res, _, ok := bands.EvalMethod(cfg, "GetRX1DataRateIndex", map[string]tables.Value{names[0]: tables.Int{V: int64(dr)}, names[1]: tables.Int{V: int64(off)}})
+			key := fmt.Sprintf("%s/GetRX1DataRateIndex(dr=%d,off=%d)", id, dr, off)
+			if !ok || len(res) != 2 {
+				diag := fmt.Sprint(bands.Ev.Diag)
+				if i := strings.Index(diag, "PANIC: "); i >= 0 {
+					r.Bad(rule, key, pos, "an error or a data rate, never a panic", clipText(diag[i:], 160))
+				} else {
+					r.Unknown(rule, key, pos, "function inside the evaluable subset", diag)
+				}
+				return
+			}
+			n++
+			if _, errNil := res[1].(tables.Nil); errNil {
+				got, okg := res[0].(tables.Int)
+				if !okg || !down[int(got.V)] {
+					r.Bad(rule, key, pos, "a defined downlink data rate", tables.Show(res[0]))
+					return
+				}
+			}
+		}
+	}
+	r.OK(rule, id+"/GetRX1DataRateIndex", pos, "no panic and only defined downlink data rates at every point of DR -2..17 x offset -2..9", fmt.Sprintf("%d points evaluated", n), true)
 }
 
 func c12RX1Channel(c *Ctx, bands *tables.Bands, cfg *tables.BandConfig, fam regBand) {
